@@ -7,7 +7,7 @@ from props._semprop import fill
 from sem import run_semantic
 
 MODULE = "Proofs.Props.C01"
-THEOREMS = ["Facto.Circuit.settle", "Facto.Circuit.settled_fixpoint", "Facto.Circuit.settled_stable", "Facto.Circuit.evalEnt_local", "Facto.scalar_end_to_end", "Facto.checkAll_sound"]
+THEOREMS = ["Facto.Circuit.settle", "Facto.Circuit.settled_fixpoint", "Facto.Circuit.settled_stable", "Facto.Circuit.evalEnt_local", "Facto.scalar_end_to_end", "Facto.checkAll_sound", "Facto.Circuit.history_independent", "Facto.scalar_history_end_to_end", "Facto.bundle_end_to_end", "Facto.enable_end_to_end"]
 
 
 def cse_key(op):
